@@ -25,7 +25,7 @@ from vlib import Ctx, bag, log, lval, plain
 
 ID = "C14"
 LEVEL = "proof"
-MODULES = ["SqlframeModel.Props.C14"]
+MODULES = ["SqlframeModel.Codec.C14", "SqlframeModel.Props.C14"]  # the codec is what the driver imports; the audit uses the last one
 GEN = ["Writer"]
 SOURCES = [
     "SqlframeModel/Props/C14.lean",
@@ -84,9 +84,13 @@ def gen_history(rng: random.Random, n_ops: int) -> dict:
                 arg, st = None, m
             else:
                 arg, st = m, rng.choice([x for x in MODES if x])
-            ops.append({"k": "save", "n": tg, "arg": arg, "st": st, "f": gen_frame(rng, base[tg])})
+            o = {"k": "save", "n": tg, "arg": arg, "st": st, "f": gen_frame(rng, base[tg])}
+            if st is not None and rng.random() < 0.2:
+                o["st_first"] = rng.choice([x for x in MODES if x])  # .mode(a).mode(b): the last one counts
+            ops.append(o)
         elif c < 0.75:
-            ops.append({"k": "insertInto", "n": tg, "byName": rng.random() < 0.6, "f": gen_frame(rng, base[tg])})
+            bn = rng.random() < 0.6
+            ops.append({"k": "insertInto", "n": tg, "byName": bn, "chain": rng.choice([None, "bm", "mb"] if bn else [None, None, "m"]), "f": gen_frame(rng, base[tg])})
         elif c < 0.93:
             ops.append({"k": "read", "n": tg})
         else:
@@ -129,12 +133,44 @@ def frame_to_lean(f: dict) -> dict:
     }
 
 
+def calls_of(o: dict) -> t.List[t.Any]:
+    """the builder chain between `df.write` and the final call, as [["byName"] | ["mode", m], ...]"""
+    if o["k"] == "save":
+        calls = [["mode", o["st_first"]]] if o.get("st_first") is not None else []
+        if o["st"] is not None:
+            calls.append(["mode", o["st"]])
+        return calls
+    ch = o.get("chain")
+    m = ["mode", o.get("chain_mode", "append")]
+    if ch == "bm":
+        return [["byName"], m]
+    if ch == "mb":
+        return [m, ["byName"]]
+    if ch == "m":
+        return ([["byName"]] if o["byName"] else []) + [m]
+    return [["byName"]] if o["byName"] else []
+
+
+def calls_to_lean(calls: t.List[t.Any]) -> t.List[t.Any]:
+    return ["byName" if c[0] == "byName" else {"mode": {"m": c[1]}} for c in calls]
+
+
+def apply_calls(w: t.Any, calls: t.List[t.Any]) -> t.Any:
+    for c in calls:
+        w = w.byName if c[0] == "byName" else w.mode(c[1])
+    return w
+
+
+def show_calls(calls: t.List[t.Any]) -> str:
+    return "".join(".byName" if c[0] == "byName" else f".mode({c[1]!r})" for c in calls)
+
+
 def op_to_lean(o: dict) -> t.Any:
     k = o["k"]
     if k == "save":
-        return {"save": {"n": o["n"], "arg": o["arg"], "st": o["st"], "f": frame_to_lean(o["f"])}}
+        return {"save": {"n": o["n"], "calls": calls_to_lean(calls_of(o)), "arg": o["arg"], "f": frame_to_lean(o["f"])}}
     if k == "insertInto":
-        return {"insertInto": {"n": o["n"], "byName": o["byName"], "f": frame_to_lean(o["f"])}}
+        return {"insertInto": {"n": o["n"], "calls": calls_to_lean(calls_of(o)), "f": frame_to_lean(o["f"])}}
     if k == "read":
         return {"read": {"n": o["n"]}}
     if k == "drop":
@@ -156,11 +192,10 @@ def show_frame(f: dict) -> str:
 def show_op(o: dict) -> str:
     k = o.get("k")
     if k == "save":
-        w = f".mode({o['st']!r})" if o["st"] is not None else ""
         a = f", mode={o['arg']!r}" if o["arg"] is not None else ""
-        return f"{show_frame(o['f'])}.write{w}.saveAsTable({o['n']!r}{a})"
+        return f"{show_frame(o['f'])}.write{show_calls(calls_of(o))}.saveAsTable({o['n']!r}{a})"
     if k == "insertInto":
-        return f"{show_frame(o['f'])}.write{'.byName' if o['byName'] else ''}.insertInto({o['n']!r})"
+        return f"{show_frame(o['f'])}.write{show_calls(calls_of(o))}.insertInto({o['n']!r})"
     if k == "read":
         return f"session.table({o['n']!r}).collect()"
     if k == "drop":
@@ -227,18 +262,13 @@ def run_tables_impl(c: dict) -> t.List[dict]:
         obs: t.Dict[str, t.Any] = {"ok": True, "out": None, "err": None}
         try:
             if k == "save":
-                w = make_df(session, o["f"]).write
-                if o["st"] is not None:
-                    w = w.mode(o["st"])
+                w = apply_calls(make_df(session, o["f"]).write, calls_of(o))
                 if o["arg"] is not None:
                     w.saveAsTable(o["n"], mode=o["arg"])
                 else:
                     w.saveAsTable(o["n"])
             elif k == "insertInto":
-                w = make_df(session, o["f"]).write
-                if o["byName"]:
-                    w = w.byName
-                w.insertInto(o["n"])
+                apply_calls(make_df(session, o["f"]).write, calls_of(o)).insertInto(o["n"])
             elif k == "read":
                 tb = session.table(o["n"])
                 rows = tb.collect()
@@ -662,19 +692,23 @@ def table_cases(ctx: Ctx) -> t.List[dict]:
                     ops.append({"k": "save", "n": "t1", "arg": m if via == "arg" else None, "st": m if via == "state" else None, "f": f})
                     ops.append({"k": "read", "n": "t1"})
                     cases.append({"ops": ops, "origin": "modes-grid"})
-    # insertInto positional / byName x cached? x permutation
-    for by_name in (False, True):
+    # insertInto positional / byName x builder-chain order x cached? x permutation (half of them over
+    # bigint columns only, so that a positional insert of permuted columns is accepted by the engine)
+    for by_name, chain in ((False, None), (False, "m"), (True, None), (True, "bm"), (True, "mb")):
         for cached in (False, True):
-            for _ in range(4 if not ctx.thorough else 12):
-                base = rng.sample(list(TYPES), rng.randint(2, 3))
+            for rep in range(4 if not ctx.thorough else 12):
+                base = rng.sample(list(TYPES), rng.randint(2, 3)) if rep % 2 else rng.sample(["x", "y"], 2)
                 f0 = {"cols": list(base), "rows": X.gen_table(rng, {k: TYPES[k] for k in base}, 3), "fails": False, "bad_at": 0}
                 perm = list(base)
                 rng.shuffle(perm)
+                if rep % 2 == 0:
+                    perm = base[1:] + base[:1]
                 f1 = {"cols": perm, "rows": X.gen_table(rng, {k: TYPES[k] for k in perm}, 3), "fails": False, "bad_at": 0}
+                f1["rows"].append([(10 + j) if TYPES[k] == "int" else "r" + str(j) for j, k in enumerate(perm)])  # a row that shows the order
                 ops = [{"k": "save", "n": "t1", "arg": None, "st": None, "f": f0}]
                 if cached:
                     ops.append({"k": "read", "n": "t1"})
-                ops.append({"k": "insertInto", "n": "t1", "byName": by_name, "f": f1})
+                ops.append({"k": "insertInto", "n": "t1", "byName": by_name, "chain": chain, "f": f1})
                 ops.append({"k": "read", "n": "t1"})
                 cases.append({"ops": ops, "origin": "insert-grid"})
     n_rand = 1500 if ctx.thorough else 220
